@@ -377,3 +377,27 @@ func H_C08_clone_wide_and_deep() {
 	verifAssert(len(co) == len(cc) && !shared, "no container reachable from the clone is reachable from the original")
 	verifReach("end")
 }
+
+// lists and objects mixing ints, floats and other scalars side by side (numeric fast paths must not reorder,
+// convert or drop elements)
+func H_C08_clone_mixed_scalars() {
+	a, f := nondetInt(), hFiniteFloat()
+	s := hBytesStr(1)
+	var c any
+	switch nondetIntRange(0, 3) {
+	case 0:
+		c = NewList(a, f, a)
+	case 1:
+		c = NewList(f, a, NewList(a, f), s)
+	case 2:
+		c = NewObject("i", a, "f", f, "l", NewList(f, a, nil, true))
+	default:
+		c = NewList(s, s, NewList(true, false), NewList(nil, nil))
+	}
+	before := hSnapAny(c)
+	cl := hCloneAny(c)
+	verifAssert(hExact(before, hSnapAny(cl)), "the clone has the same content, kinds included")
+	eq, _ := hEqualsAny(cl, c)
+	verifAssert(eq, "the clone Equals the original")
+	verifReach("end")
+}
